@@ -36,6 +36,14 @@ type vPolicy struct {
 	Bfp   []string               `json:"bfp"`
 	All   []string               `json:"all"`
 	Apps  hxAppMap               `json:"apps"`
+	Files []vFileRule            `json:"files,omitempty"`
+}
+
+// vFileRule is a file rule (pattern already in the matcher's syntax).
+type vFileRule struct {
+	Pat string   `json:"pat"`
+	Pr  []string `json:"pr"`
+	Thr int      `json:"thr"`
 }
 
 // hxAppMap is the policy's app table (TLC renders the empty one as []).
@@ -164,6 +172,9 @@ func (p vPolicy) abs() *conc.AbsPolicy {
 		for n, v := range p.Rules[r] {
 			ap.Targets.Rules = append(ap.Targets.Rules, conc.AbsRule{Name: fmt.Sprintf("%s-%d", r, n+1), Pats: []string{"git:" + fullRef(r)}, Pr: v.Pr, Thr: v.Thr})
 		}
+	}
+	for n, f := range p.Files {
+		ap.Targets.Rules = append(ap.Targets.Rules, conc.AbsRule{Name: fmt.Sprintf("file-%d", n+1), Pats: []string{"file:" + f.Pat}, Pr: f.Pr, Thr: f.Thr})
 	}
 	for n, g := range p.Gthr {
 		pats := []string{}
@@ -420,6 +431,18 @@ func (r *vRepo) add(pos int, e vEntry) error {
 	default:
 		return fmt.Errorf("unknown entry kind %q", e.K)
 	}
+	if err != nil {
+		return err
+	}
+	r.targets = append(r.targets, target)
+	r.ids = append(r.ids, id)
+	return nil
+}
+
+// addRefTarget appends a reference entry for ref naming an existing commit.
+func (r *vRepo) addRefTarget(ref, signer string, target githash.Hash) error {
+	r.s.RawSetRef(fullRef(ref), target)
+	id, err := r.appendRSL(r.refEntryText("ref", fullRef(ref), target), signer)
 	if err != nil {
 		return err
 	}
